@@ -17,7 +17,6 @@ use vstd::prelude::*;
 
 //@@default-rule X4.lock s/(\w+(?:\.\w+)*)\.lock\(\)\.unwrap\(\)/(&mut \1)/
 //@@default-rule X4.release s/\bdrop\((\w+)\);/release(\1);/
-//@@default-rule X6.world s/\bsend_request\(\)/send_request.call(Tracked(w))/
 //@@default-rule X6.world s/\.wake\(\)/.wake(Tracked(w))/
 //@@default-rule X6.world s/\.try_receive\(\)/.try_receive(Tracked(w))/
 //@@default-rule X6.world s/\bsender\.send\(/sender.send(Tracked(w), /
@@ -132,7 +131,8 @@ pub mod shell_request {
                 final(self).shared_state.result is None, // [C02/legacy-request/poll/a-delivered-value-is-consumed-once]
                 old(self).shared_state.result is None ==> r is Pending && final(self).shared_state.waker is Some && final(self).shared_state.waker->0.id() == old(cx).waker_id(), // [C02/legacy-request/poll/pending-only-with-the-polling-tasks-waker-registered-in-the-same-critical-section]
                 poll_section(old(self).shared_state, final(self).shared_state, *old(w), *final(w), old(cx).waker_id(), r),
-//@rule X12.poll-path * s/\bPoll::/Poll::/
+//@bind send Some\((\w+)\)\s*=\s*\w+(?:\.\w+)*\.send_request\.take\(\)|\.send_request\.take\(\)\s*\{\s*Some\((\w+)\)\s*=>
+//@rule X6.world * s/\b$send\(\)/$send.call(Tracked(w))/
 //@end
     }
 
@@ -146,15 +146,15 @@ pub mod shell_request {
     }
 
 //@extract id=legacy::request_from_shell::resolve-callback file=crux_core/src/capability/shell_request.rs within="impl<Op, Ev> crate::capability::CapabilityContext<Op, Ev>" item="fn request_from_shell" closure="Request::resolves_once\(operation,\s*" props=C02+C06
-//@expect move |result|
-//@sig pub fn resolve_callback<T>(callback_shared_state: &mut WeakState<SharedState<T>>, Tracked(w): Tracked<&mut LW>, result: T)
+//@expect move |$x|
+//@sig pub fn resolve_callback<T>(callback_shared_state: &mut WeakState<SharedState<T>>, Tracked(w): Tracked<&mut LW>, $x: T)
 //@contract
         ensures
             !old(callback_shared_state).alive ==> *final(callback_shared_state) == *old(callback_shared_state) && *final(w) == *old(w), // [C02+C06/legacy-request/resolve/a-dropped-future-makes-the-resolution-a-no-op]
-            old(callback_shared_state).alive ==> final(callback_shared_state).target.result == Some(result), // [C02/legacy-request/resolve/the-value-is-stored-unchanged]
+            old(callback_shared_state).alive ==> final(callback_shared_state).target.result == Some($x), // [C02/legacy-request/resolve/the-value-is-stored-unchanged]
             old(callback_shared_state).alive && old(callback_shared_state).target.waker is Some ==> final(w).woken == old(w).woken.push(old(callback_shared_state).target.waker->0.id()) && final(callback_shared_state).target.waker is None, // [C02/legacy-request/resolve/a-registered-waker-is-woken-exactly-once-in-the-same-critical-section]
-            resolve_section(*old(callback_shared_state), *final(callback_shared_state), *old(w), *final(w), result),
-//@rule X4.weak 1 s/let mut (\w+) = \1\.lock\(\)\.unwrap\(\);/let \1 = &mut callback_shared_state.target;/
+            resolve_section(*old(callback_shared_state), *final(callback_shared_state), *old(w), *final(w), $x),
+//@rule X4.weak 1 s/let mut (\w+)(?:: [^=]+)? = \w+\.lock\(\)\.unwrap\(\);/let \1 = &mut callback_shared_state.target;/
 //@end
 
     /// No lost wake-up, value unchanged, delivered once - for EVERY state the lock is acquired in:
@@ -239,6 +239,8 @@ pub mod shell_stream {
                 old(w).queue.len() > 0 ==> (r matches Poll::Ready(Some(v)) && val_id(v) == old(w).queue[0] && final(w).queue == old(w).queue.drop_first()), // [C02/legacy-stream/poll_next/the-oldest-undelivered-value-is-yielded-unchanged-and-removed]
                 old(w).queue.len() == 0 ==> final(w).queue == old(w).queue && (r == Poll::Ready(None::<T>) || (r is Pending && final(self).shared_state.waker is Some && final(self).shared_state.waker->0.id() == old(cx).waker_id())), // [C02/legacy-stream/poll_next/pending-only-with-the-polling-tasks-waker-registered-in-the-same-critical-section]
                 poll_next_section(old(self).shared_state, final(self).shared_state, *old(w), *final(w), old(cx).waker_id(), r),
+//@bind send Some\((\w+)\)\s*=\s*\w+(?:\.\w+)*\.send_request\.take\(\)|\.send_request\.take\(\)\s*\{\s*Some\((\w+)\)\s*=>
+//@rule X6.world * s/\b$send\(\)/$send.call(Tracked(w))/
 //@end
     }
 
@@ -250,15 +252,15 @@ pub mod shell_stream {
     }
 
 //@extract id=legacy::stream_from_shell::resolve-callback file=crux_core/src/capability/shell_stream.rs within="impl<Op, Ev> crate::capability::CapabilityContext<Op, Ev>" item="fn stream_from_shell" closure="Request::resolves_many_times\(operation,\s*" props=C02+C06
-//@expect move |result|
-//@sig pub fn resolve_callback<T>(callback_shared_state: &mut WeakState<SharedState<T>>, sender: &Sender<T>, Tracked(w): Tracked<&mut LW>, result: T) -> (r: Result<(), ()>)
+//@expect move |$x|
+//@sig pub fn resolve_callback<T>(callback_shared_state: &mut WeakState<SharedState<T>>, sender: &Sender<T>, Tracked(w): Tracked<&mut LW>, $x: T) -> (r: Result<(), ()>)
 //@contract
         ensures
             !old(callback_shared_state).alive ==> r is Err && *final(callback_shared_state) == *old(callback_shared_state) && *final(w) == *old(w), // [C02+C06/legacy-stream/resolve/after-the-consumer-has-ended-a-resolution-is-rejected-and-never-delivered]
-            old(callback_shared_state).alive ==> r is Ok && final(w).queue == old(w).queue.push(val_id(result)), // [C02/legacy-stream/resolve/the-value-is-queued-exactly-once-behind-the-earlier-ones]
+            old(callback_shared_state).alive ==> r is Ok && final(w).queue == old(w).queue.push(val_id($x)), // [C02/legacy-stream/resolve/the-value-is-queued-exactly-once-behind-the-earlier-ones]
             old(callback_shared_state).alive && old(callback_shared_state).target.waker is Some ==> final(w).woken == old(w).woken.push(old(callback_shared_state).target.waker->0.id()) && final(callback_shared_state).target.waker is None, // [C02/legacy-stream/resolve/a-registered-waker-is-woken-exactly-once-in-the-same-critical-section]
-            resolve_section(*old(callback_shared_state), *final(callback_shared_state), *old(w), *final(w), result, r),
-//@rule X4.weak 1 s/let mut (\w+) = \1\.lock\(\)\.unwrap\(\);/let \1 = &mut callback_shared_state.target;/
+            resolve_section(*old(callback_shared_state), *final(callback_shared_state), *old(w), *final(w), $x, r),
+//@rule X4.weak 1 s/let mut (\w+)(?:: [^=]+)? = \w+\.lock\(\)\.unwrap\(\);/let \1 = &mut callback_shared_state.target;/
 //@end
 
     /// Stream arity: for EVERY acquisition state with an empty queue - a Pending poll followed by two
